@@ -224,3 +224,33 @@ Proof.
   exists capital_siblings. split; vm_compute; reflexivity.
 Qed.
 
+Lemma c12_ser_attr_total :
+  forall attr : string, (class_of (parse_ser_attr attr) = COk \/ class_of (parse_ser_attr attr) = CErr).
+Proof.
+  intros. apply ok_or_err_class. apply ser_attr_total.
+Qed.
+
+Lemma c12_ser_attr_refuted :
+  class_of (parse_ser_attr_with false "iden3:v1:slotIndexA=price&slotValueB") = CPanic /\
+  class_of (parse_ser_attr "iden3:v1:slotIndexA=price&slotValueB") = CErr.
+Proof.
+  split; vm_compute; reflexivity.
+Qed.
+
+Lemma c12_doc_path_total :
+  forall (defined : string -> bool) (parts : list seg) (doc : jv) (accept_array : bool),
+  Forall (fun s => match s with SNum z => 0 <= z | SName _ => True end) parts ->
+  (class_of (path_from_doc pv_repo defined parts doc accept_array) = COk \/ class_of (path_from_doc pv_repo defined parts doc accept_array) = CErr).
+Proof.
+  intros. apply ok_or_err_class. apply doc_path_total. assumption.
+Qed.
+
+Lemma c12_doc_path_refuted :
+  class_of (path_from_doc (mkpv false true) all_defined [SName "items"; SName "label"] items_empty false) = CPanic /\
+  class_of (path_from_doc pv_repo all_defined [SName "items"; SName "label"] items_empty false) = CErr /\
+  class_of (path_from_doc (mkpv true false) all_defined [SName "items"; SNum 2]
+              (JVObj [("items", JVArr [JVScalar; JVScalar])]) false) = CPanic.
+Proof.
+  repeat split; vm_compute; reflexivity.
+Qed.
+
